@@ -107,3 +107,28 @@ def _c05_nl(v):
     d = v.get('detail') or {}
     return v['kind'] == 'missing_newline_mid_file' and d.get('next_value') in ALWAYS_BREAK \
         and d.get('next_prefix_has_newline') is True
+
+
+# ---------------------------------------------------------------------------
+# C10
+
+@classifier('c10_pep701_fstring')
+def _c10_pep701(v):
+    """F-C10-1: grammar >= 3.12, the program contains an f-string with PEP 701-only syntax (quote reuse,
+    comment, backslash or line break inside a replacement field) and the first difference lies at or
+    after that f-string's line."""
+    d = v.get('detail') or {}
+    return v['kind'].startswith('token_') and d.get('version_ge_312') is True and d.get('pep701_first_line') is not None \
+        and d.get('line') is not None and d['line'] >= d['pep701_first_line']
+
+
+@classifier('c10_formfeed_indentation')
+def _c10_ff(v):
+    """F-C10-2: a logical line whose leading whitespace contains a form feed precedes (or is) the line
+    of the first difference, and the differing tokens include an INDENT/DEDENT/ERROR_DEDENT."""
+    d = v.get('detail') or {}
+    if v['kind'] != 'token_type' or d.get('first_formfeed_indent_line') is None or d.get('line') is None:
+        return False
+    virt = ('INDENT', 'DEDENT', 'ERROR_DEDENT')
+    rt, pt = (d.get('ref_token') or [None])[0], (d.get('parso_token') or [None])[0]
+    return d['line'] >= d['first_formfeed_indent_line'] and (rt in virt or pt in virt) and rt != pt
